@@ -1,5 +1,5 @@
 (* C12 line protocol.  One job per line (J: reader selections given as tables; K: linked mode, the reader is the
-   C10/C11 model: every message carries two more fields off size, the file size follows the messages, times in eighths):
+   C10/C11 model: every message carries two more fields off size, the file size follows the messages, in both modes times are in eighths of a second):
    J nmsgs (ord type src time-or-N p1 sys dec)... navail (id)... ntr (s-or-N e-or-N abs nsel (ord)...)... nnonnan (ord)... ncalls (call)...
    call = ntypes-or-N (type)... s e abs nsrc-or-N (id)... ign max-or-N p1 sys order bytes idx num keep nan align natypes-or-N (type)...
    Output (one line): per call, tab-separated fields H (outcome after the history so far), F (same call on a fresh
@@ -38,7 +38,6 @@ let () =
     (match next () with
      | ("J" | "K") as mode ->
         let linked = (mode = "K") in
-        tscale := (if linked then 8 else 1);
         let geom = ref [] in
         let log = next_list (fun () ->
           let o = next_n () in let ty = next_n () in let src = next_n () in let tm = next_optz () in
